@@ -148,7 +148,7 @@ package authgrants
 //@   inline
 // (encoding a port-forwarding grant is unimplemented and panics: excluded by precondition; only command and shell intents are ever built)
 //@ func (i *Intent) WriteTo(w io.Writer) (n int64, err error)
-//@   property C18
+//@   property C18 C06
 //@   requires i.GrantType != authgrants.LocalPF && i.GrantType != authgrants.RemotePF
 //@   modifies spos
 //@   let p = spos[ref(w)]
@@ -163,7 +163,7 @@ package authgrants
 //@   ensures err == nil && i.GrantType == authgrants.Command ==> cmdAt(ref(w), wCertEnd, i) && spos == update(old(spos), ref(w), wCertEnd + 1 + len(i.AssociatedData.CommandGrantData.Cmd))
 //@   ensures err == nil && i.GrantType != authgrants.Command ==> spos == update(old(spos), ref(w), wCertEnd)
 //@ func (i *Intent) ReadFrom(r io.Reader) (n int64, err error)
-//@   property C18
+//@   property C18 C06
 //@   modifies *i, spos
 //@   let p = spos[ref(r)]
 //@   after certs.Certificate.ReadFrom let rCertEnd = spos[ref(r)]
@@ -182,7 +182,7 @@ package authgrants
 //@ macro denialAt(s, p, m) = sbyte(s, p + 1) == uint8(len(m.Data.Denial)) && srange(s, p + 2, len(m.Data.Denial)) == bytes(m.Data.Denial)
 //@ macro carriesIntent(m) = m.MsgType == authgrants.IntentRequest || m.MsgType == authgrants.IntentCommunication
 //@ func (m *AgMessage) WriteTo(w io.Writer) (n int64, err error)
-//@   property C18
+//@   property C18 C06
 //@   requires m.Data.Intent.GrantType != authgrants.LocalPF && m.Data.Intent.GrantType != authgrants.RemotePF
 //@   modifies spos
 //@   let p = spos[ref(w)]
@@ -191,7 +191,7 @@ package authgrants
 //@   ensures err == nil && m.MsgType == authgrants.IntentDenied ==> denialAt(ref(w), p, m) && spos == update(old(spos), ref(w), p + 2 + len(m.Data.Denial))
 //@   ensures err == nil && m.MsgType == authgrants.IntentConfirmation ==> spos == update(old(spos), ref(w), p + 1)
 //@ func (m *AgMessage) ReadFrom(r io.Reader) (n int64, err error)
-//@   property C18
+//@   property C18 C06
 //@   modifies *m, spos
 //@   let p = spos[ref(r)]
 //@   ensures err == nil ==> sbyte(ref(r), p) == uint8(m.MsgType)
